@@ -161,65 +161,78 @@ func c14(args []string) int {
 	// ---- synthetic functions of exact sizes: body of (s-1) bytes, one INT3, then foreign code
 	// body = (xor eax,eax)* [nop-free] ret ; GetFuncSize = len(body)+1 because the INT3 run ends at the foreign code
 	pos := 64
-	for s := 2; s <= tinyMax; s++ {
-		for _, near := range []int{0, 1, 5, 12, 13} { // distance of the entry from a page end (0 = anywhere)
-			off := pos
-			if near > 0 {
-				pg := 1 + (s % (npages - 1))
-				off = pg*int(ps) - near
+	// entry kinds: a decodable first instruction, or one the bundled decoder does not know (ENDBR64, an EVEX-encoded load):
+	// the extent scan then reports 0 and the patch must be refused whatever follows
+	for _, entry := range []string{"plain", "endbr", "evex"} {
+		for s := 2; s <= tinyMax; s++ {
+			if entry != "plain" && (s < 8 || s%3 != 0) {
+				continue
 			}
-			pos += 96
-			if pos > int(ps)-200 {
-				pos = 64
-			}
-			// restore the area to INT3 first
-			memory.WriteTo(base+uintptr(off-8), make8(0xCC, s+40))
-			body := make([]byte, 0, s+8)
-			for len(body) < s-2 {
-				if s-2-len(body) >= 2 {
-					body = append(body, 0x31, 0xC0)
-				} else {
-					body = append(body, 0x50) // push rax (1 byte)
+			for _, near := range []int{0, 1, 5, 12, 13} { // distance of the entry from a page end (0 = anywhere)
+				off := pos
+				if near > 0 {
+					pg := 1 + (s % (npages - 1))
+					off = pg*int(ps) - near
 				}
-			}
-			body = append(body, 0xC3)       // ret  -> len(body) = s-1
-			body = append(body, 0xCC)       // one byte of padding
-			body = append(body, 0x31, 0xC0, 0xC3, 0x31, 0xC0, 0xC3) // the neighbour
-			memory.WriteTo(base+uintptr(off), body)
-			before := append([]byte{}, rawView(base, region)...)
-			addr := base + uintptr(off)
-			bytecode.VerifClearFuncSizeCache()
-			size, _ := bytecode.GetFuncSize(64, addr, false)
-			g, err := patch.Ptr(addr, c14Replacement)
-			rec := map[string]interface{}{"kind": "tiny", "size": s, "near_page_end": near, "off": off, "funcsize": size, "refused": err != nil}
-			if err == nil {
-				g.Apply()
-				after := rawView(base, region)
-				lo, hi := -1, -1
-				for j := range before {
-					if before[j] != after[j] {
-						if lo < 0 {
-							lo = j
+				pos += 96
+				if pos > int(ps)-200 {
+					pos = 64
+				}
+				// restore the area to INT3 first
+				memory.WriteTo(base+uintptr(off-8), make8(0xCC, s+40))
+				body := make([]byte, 0, s+8)
+				switch entry {
+				case "endbr":
+					body = append(body, 0xF3, 0x0F, 0x1E, 0xFA)
+				case "evex":
+					body = append(body, 0x62, 0xF1, 0x7C, 0x48, 0x10, 0x00)
+				}
+				for len(body) < s-2 {
+					if s-2-len(body) >= 2 {
+						body = append(body, 0x31, 0xC0)
+					} else {
+						body = append(body, 0x50) // push rax (1 byte)
+					}
+				}
+				body = append(body, 0xC3)                               // ret  -> len(body) = s-1
+				body = append(body, 0xCC)                               // one byte of padding
+				body = append(body, 0x31, 0xC0, 0xC3, 0x31, 0xC0, 0xC3) // the neighbour
+				memory.WriteTo(base+uintptr(off), body)
+				before := append([]byte{}, rawView(base, region)...)
+				addr := base + uintptr(off)
+				bytecode.VerifClearFuncSizeCache()
+				size, _ := bytecode.GetFuncSize(64, addr, false)
+				g, err := patch.Ptr(addr, c14Replacement)
+				rec := map[string]interface{}{"kind": "tiny", "entry": entry, "size": s, "near_page_end": near, "off": off, "funcsize": size, "refused": err != nil}
+				if err == nil {
+					g.Apply()
+					after := rawView(base, region)
+					lo, hi := -1, -1
+					for j := range before {
+						if before[j] != after[j] {
+							if lo < 0 {
+								lo = j
+							}
+							hi = j
 						}
-						hi = j
 					}
-				}
-				rec["changed_lo"] = lo - off
-				rec["changed_hi"] = hi - off
-				rec["jump_ok"] = after[off] == 0x90 && after[off+1] == 0x48 && after[off+2] == 0xBA
-				g.UnpatchWithLock()
-				rest := rawView(base, region)
-				same := true
-				for j := range before {
-					if before[j] != rest[j] {
-						same = false
+					rec["changed_lo"] = lo - off
+					rec["changed_hi"] = hi - off
+					rec["jump_ok"] = after[off] == 0x90 && after[off+1] == 0x48 && after[off+2] == 0xBA
+					g.UnpatchWithLock()
+					rest := rawView(base, region)
+					same := true
+					for j := range before {
+						if before[j] != rest[j] {
+							same = false
+						}
 					}
+					rec["restored"] = same
+					patch.UnpatchAll()
 				}
-				rec["restored"] = same
-				patch.UnpatchAll()
+				rec["perms"] = pagePerms(base, base+uintptr(region))
+				out.Put(rec)
 			}
-			rec["perms"] = pagePerms(base, base+uintptr(region))
-			out.Put(rec)
 		}
 	}
 	// ---- origin placeholders of exact sizes: the relocated prologue plus the jump back must fit or the apply must be refused
